@@ -22,8 +22,8 @@ def confirm(sid, prop=None):
     prop = prop or sid[:3]
     out = os.path.join(V, "seeded", sid)
     os.makedirs(out, exist_ok=True)
-    rc, diff = sh("git diff -- pyhms", cwd=wt)
-    open(os.path.join(out, "patch.diff"), "w").write(diff + "\n")
+    diff = subprocess.run("git diff -- pyhms", shell=True, cwd=wt, capture_output=True, text=True).stdout
+    open(os.path.join(out, "patch.diff"), "w").write(diff)
     demo = [f for f in os.listdir(wt) if f.startswith("demo_") and f.endswith(".py")][0]
     shutil.copy(os.path.join(wt, demo), os.path.join(out, demo))
     meta = {}
